@@ -116,6 +116,9 @@ func runSelftest(repo, verifDir, prop string, verbose bool) SelftestResult {
 			defer mu.Unlock()
 			res.Run++
 			name := j.prop + "/" + strings.TrimSuffix(filepath.Base(j.file), ".json")
+			if filepath.Base(j.file) == "meta.json" {
+				name = j.prop + "/seeded-" + filepath.Base(filepath.Dir(j.file))
+			}
 			last := lastLine(string(out))
 			switch code {
 			case 0:
